@@ -379,7 +379,7 @@ def axiom_allowed(a):
         return True
     mods = a.split(".")[:-1]
     if all(m in ("PrimFloat", "PrimInt63", "Uint63", "FloatAxioms", "Floats", "Coq", "Numbers", "Cyclic", "Int63",
-                 "Uint63Axioms", "FloatOps") for m in mods):
+                 "Uint63Axioms", "FloatOps", "Leibniz") for m in mods):
         if last in PRIMITIVES or last in STDLIB_SPEC_AXIOMS:
             return True
     return False
@@ -521,6 +521,29 @@ class Ctx:
                     axioms.add(a)
                     if not axiom_allowed(a):
                         self.broken.append(("axiom", a, "not on the allow-list of DESIGN.md section 5"))
+        # thorough tier: re-check the compiled property library and everything it depends on with the independent checker
+        if self.tier == "thorough" and not self.broken and os.environ.get("VERIF_NO_COQCHK") != "1":
+            try:
+                rc, cout = sh(["coqchk", "-silent", "-o", "-Q", COQ, "V", "V.props.%s" % self.prop], cwd=COQ, timeout=2400)
+            except subprocess.TimeoutExpired:
+                rc, cout = 124, "coqchk timed out"
+            chk_ax, on = [], False
+            for line in cout.splitlines():
+                if line.startswith("* Axioms:"):
+                    on = True
+                    if "<none>" in line:
+                        on = False
+                elif line.startswith("* "):
+                    on = False
+                elif on and line.strip():
+                    chk_ax.append(line.strip())
+            bad = [a for a in chk_ax if not axiom_allowed(a)]
+            self.cov["coqchk"] = {"exit": rc, "axioms_of_all_loaded_libraries": len(chk_ax), "not_on_allow_list": bad,
+                                  "type_in_type": "type-in-type: <none>" in cout, "cmd": "coqchk -silent -o -Q coq V V.props.%s" % self.prop}
+            if rc != 0:
+                self.broken.append(("coqchk", "V.props.%s" % self.prop, cout[-1200:]))
+            for a in bad:
+                self.broken.append(("axiom", a, "reported by coqchk -o, not on the allow-list"))
         self.cov["obligations"] = nobl
         self.cov["discharged"] = max(ndis, 0)
         self.cov["checker_cmd"] = "cd /verif/coq && make -j16 (coqc 8.16.1, full .vo) ; coqc props/%s.v (Print Assumptions)" % self.prop
